@@ -789,14 +789,20 @@ func main() {
 		nw = 4000
 	}
 	var wmas []wmaCase
-	wmas = append(wmas,
-		runWMA(wmaCase{Opts: optsJ{Init: 1000, Max: 10000}, N: 1, StopAt: -1, Det: true}),                                   // n = 1, always failing
-		runWMA(wmaCase{Opts: optsJ{Init: 3600000000000, Max: 3600000000000}, N: 3, PreClosed: true, StopAt: -1, Det: true}), // closer closed before
-		runWMA(wmaCase{Opts: optsJ{Init: 3600000000000, Max: 3600000000000}, N: 3, PreCancel: true, StopAt: -1, Det: true}),
-		runWMA(wmaCase{Opts: optsJ{Init: 1000, Max: 10000}, N: 3, Pattern: []bool{false, false, true}, StopAt: -1, Det: true}),
-		runWMA(wmaCase{Opts: optsJ{Init: 1000, Max: 10000}, N: 3, Pattern: []bool{false, false, false, true}, StopAt: -1, Det: true}),
-		runWMA(wmaCase{Opts: optsJ{Init: 1000, Max: 10000}, N: 0, Pattern: []bool{true}, StopAt: -1, Det: true}),
-	)
+	fixedW := []wmaCase{
+		{Opts: optsJ{Init: 1000, Max: 10000}, N: 1, StopAt: -1, Det: true},                                   // n = 1, always failing
+		{Opts: optsJ{Init: 3600000000000, Max: 3600000000000}, N: 3, PreClosed: true, StopAt: -1, Det: true}, // closer closed before
+		{Opts: optsJ{Init: 3600000000000, Max: 3600000000000}, N: 3, PreCancel: true, StopAt: -1, Det: true},
+		{Opts: optsJ{Init: 1000, Max: 10000}, N: 3, Pattern: []bool{false, false, true}, StopAt: -1, Det: true},
+		{Opts: optsJ{Init: 1000, Max: 10000}, N: 3, Pattern: []bool{false, false, false, true}, StopAt: -1, Det: true},
+		{Opts: optsJ{Init: 1000, Max: 10000}, N: 0, Pattern: []bool{true}, StopAt: -1, Det: true},
+	}
+	for _, c := range fixedW {
+		if hangs >= maxHangs && (c.PreClosed || c.PreCancel) {
+			continue
+		}
+		wmas = append(wmas, runWMA(c))
+	}
 	for i := 0; i < nw; i++ {
 		wmas = append(wmas, genWMA(rng))
 	}
